@@ -1,1 +1,152 @@
 //! Verification wrappers for this component (data-only re-exports of crate-private items).
+//!
+//! `sst_regions` reads an *undamaged* table file with the crate's own reader
+//! and reports where each part of the on-disk format lives (byte ranges only).
+//! The damage-enumeration driver uses the map to label each altered offset
+//! with the region of the format it falls into; it never influences a verdict.
+
+use std::path::Path;
+use std::sync::Arc;
+
+use crate::sstable::block::{Block, BlockHandle};
+use crate::sstable::table::{read_table_block, Footer, BLOCK_CKSUM_LEN, BLOCK_COMPRESS_LEN};
+use crate::vfs::File;
+use crate::{InternalKey, Options};
+
+/// One contiguous byte range of a file and the part of the format it holds.
+#[derive(Debug, Clone)]
+pub struct FileRegion {
+	/// e.g. "data.payload", "data.type", "data.crc", "filter.payload", "footer.magic"
+	pub kind: &'static str,
+	/// ordinal of the block the range belongs to (data block i, partition i; 0 otherwise)
+	pub index: u32,
+	pub offset: u64,
+	pub len: u64,
+}
+
+fn push(out: &mut Vec<FileRegion>, kind: &'static str, index: u32, offset: usize, len: usize) {
+	if len > 0 {
+		out.push(FileRegion {
+			kind,
+			index,
+			offset: offset as u64,
+			len: len as u64,
+		});
+	}
+}
+
+fn push_block(
+	out: &mut Vec<FileRegion>,
+	names: (&'static str, &'static str, &'static str),
+	index: u32,
+	h: &BlockHandle,
+) {
+	push(out, names.0, index, h.offset(), h.size());
+	push(out, names.1, index, h.offset() + h.size(), BLOCK_COMPRESS_LEN);
+	push(out, names.2, index, h.offset() + h.size() + BLOCK_COMPRESS_LEN, BLOCK_CKSUM_LEN);
+}
+
+fn entries(block: &Block) -> Result<Vec<(Vec<u8>, Vec<u8>)>, String> {
+	let mut it = block.iter().map_err(|e| e.to_string())?;
+	let mut out = Vec::new();
+	it.seek_to_first().map_err(|e| e.to_string())?;
+	while it.is_valid() {
+		out.push((it.key_bytes().to_vec(), it.value_bytes().to_vec()));
+		if !it.advance().map_err(|e| e.to_string())? {
+			break;
+		}
+	}
+	Ok(out)
+}
+
+fn find(hay: &[u8], needle: &[u8]) -> Option<usize> {
+	if needle.is_empty() || needle.len() > hay.len() {
+		return None;
+	}
+	hay.windows(needle.len()).position(|w| w == needle)
+}
+
+/// Byte ranges of every part of the table file at `path` (which must be intact).
+/// The ranges are disjoint and cover the whole file.
+pub fn sst_regions(path: &Path) -> Result<Vec<FileRegion>, String> {
+	let raw = std::fs::read(path).map_err(|e| e.to_string())?;
+	let file: Arc<dyn File> = Arc::new(std::fs::File::open(path).map_err(|e| e.to_string())?);
+	let size = raw.len();
+	let opts = Options::default();
+	let cmp = Arc::clone(&opts.internal_comparator);
+	let mut out = Vec::new();
+	if size < 50 {
+		return Err("file shorter than a footer".into());
+	}
+	let fbase = size - 50;
+	let footer = Footer::decode(&raw[fbase..]).map_err(|e| e.to_string())?;
+	let (_, n1) = BlockHandle::decode(&raw[fbase + 2..]).map_err(|e| e.to_string())?;
+	let (_, n2) = BlockHandle::decode(&raw[fbase + 2 + n1..]).map_err(|e| e.to_string())?;
+	push(&mut out, "footer.format", 0, fbase, 2);
+	push(&mut out, "footer.handles", 0, fbase + 2, n1 + n2);
+	push(&mut out, "footer.padding", 0, fbase + 2 + n1 + n2, 40 - n1 - n2);
+	push(&mut out, "footer.magic", 0, fbase + 42, 8);
+
+	// top-level index -> partitions -> data blocks
+	push_block(&mut out, ("topindex.payload", "topindex.type", "topindex.crc"), 0, &footer.index);
+	let top = read_table_block(Arc::clone(&cmp), Arc::clone(&file), &footer.index)
+		.map_err(|e| e.to_string())?;
+	let mut data_no = 0u32;
+	for (pi, (_, hv)) in entries(&top)?.iter().enumerate() {
+		let (ph, _) = BlockHandle::decode(hv).map_err(|e| e.to_string())?;
+		push_block(
+			&mut out,
+			("partition.payload", "partition.type", "partition.crc"),
+			pi as u32,
+			&ph,
+		);
+		let part =
+			read_table_block(Arc::clone(&cmp), Arc::clone(&file), &ph).map_err(|e| e.to_string())?;
+		for (_, dv) in entries(&part)? {
+			let (dh, _) = BlockHandle::decode(&dv).map_err(|e| e.to_string())?;
+			push_block(&mut out, ("data.payload", "data.type", "data.crc"), data_no, &dh);
+			data_no += 1;
+		}
+	}
+
+	// metaindex: properties value and filter handle
+	let mh = &footer.meta_index;
+	let meta = read_table_block(Arc::clone(&cmp), Arc::clone(&file), mh).map_err(|e| e.to_string())?;
+	let mut props: Option<(usize, usize)> = None;
+	for (k, v) in entries(&meta)? {
+		let uk = InternalKey::user_key_from_encoded(&k).to_vec();
+		if uk == b"meta" {
+			// the metaindex block is always written uncompressed
+			if let Some(p) = find(&raw[mh.offset()..mh.offset() + mh.size()], &v) {
+				props = Some((mh.offset() + p, v.len()));
+			}
+		} else if uk.starts_with(b"filter.") {
+			let (fh, _) = BlockHandle::decode(&v).map_err(|e| e.to_string())?;
+			push_block(&mut out, ("filter.payload", "filter.type", "filter.crc"), 0, &fh);
+		}
+	}
+	match props {
+		Some((po, pl)) => {
+			push(&mut out, "metaindex.payload", 0, mh.offset(), po - mh.offset());
+			push(&mut out, "properties", 0, po, pl);
+			push(&mut out, "metaindex.payload", 1, po + pl, mh.offset() + mh.size() - po - pl);
+		}
+		None => push(&mut out, "metaindex.payload", 0, mh.offset(), mh.size()),
+	}
+	push(&mut out, "metaindex.type", 0, mh.offset() + mh.size(), BLOCK_COMPRESS_LEN);
+	push(&mut out, "metaindex.crc", 0, mh.offset() + mh.size() + BLOCK_COMPRESS_LEN, BLOCK_CKSUM_LEN);
+
+	out.sort_by_key(|r| r.offset);
+	// disjoint cover check: a gap or an overlap means this reader and the writer disagree
+	let mut at = 0u64;
+	for r in &out {
+		if r.offset != at {
+			return Err(format!("layout gap/overlap at {} (next region {} at {})", at, r.kind, r.offset));
+		}
+		at = r.offset + r.len;
+	}
+	if at != size as u64 {
+		return Err(format!("layout covers {} of {} bytes", at, size));
+	}
+	Ok(out)
+}
